@@ -589,6 +589,30 @@ func (ts *Terms) call(x *ssa.Call, fr *Frame, depth int) *Term {
 			}
 		}
 	}
+	// trivial keeper wrapper (single block, one inner call): see through it
+	if f := c.StaticCallee(); f != nil && f.Blocks != nil && len(f.Blocks) == 1 && isIrismodFunc(f) && frameDepth(fr) < 12 &&
+		f.Signature.Recv() != nil && isKeeperStruct(f.Signature.Recv().Type()) && f.Signature.Results().Len() == 1 {
+		ncalls := 0
+		for _, ins := range f.Blocks[0].Instrs {
+			if _, ok := ins.(ssa.CallInstruction); ok {
+				ncalls++
+			}
+		}
+		if ncalls == 1 && !isErrorType(f.Signature.Results().At(0).Type()) {
+			kinds := ts.cx.transPrimKinds(f)
+			onlyExtRead := len(kinds) == 1
+			for k := range kinds {
+				if !strings.HasPrefix(k, "ext.") || isMutatingKind(k) {
+					onlyExtRead = false
+				}
+			}
+			if onlyExtRead {
+				if t := ts.Inlined(x, fr, 0, 12); t != nil {
+					return t
+				}
+			}
+		}
+	}
 	t := &Term{Op: "call", Name: callName(x), Site: x.Pos()}
 	t.Args = ts.callArgs(x, fr, depth, nil)
 	return t
